@@ -277,6 +277,8 @@ pub fn plan(prop: &str, tier: &str) -> Option<Plan> {
                 b.add_cases("seq/wcell", e(0).set("noclaim", 1), seq::seq_cases(seq::wcell_alphabet().len(), depth), 1500);
                 for &e0 in (if quick { &[0i64][..] } else { all }).iter() {
                     b.add_cases("seq/conv", e(e0).set("noclaim", 1), seq::conv_cases(), 40);
+                    // bulk constructors release several shares at once
+                    b.add_cases("seq/bulk", e(e0).set("noclaim", 1), seq::bulk_specs().len() as i64, 40);
                 }
             }
             let bq = if quick { 2 } else { 4 };
@@ -307,6 +309,12 @@ pub fn plan(prop: &str, tier: &str) -> Option<Plan> {
             for &e0 in res.iter() {
                 b.add_cases("seq/latency", e(e0).set("grid", grid), seq::latency_cases(grid), if quick { 160 } else { 256 });
             }
+            // held side leaves that stay in use (re-stamped every round) next to the spine
+            for &e0 in res.iter() {
+                for age in [4, 0] {
+                    b.add_cases("seq/latency-busy", e(e0).set("age", age), seq::latency_busy_cases(), 40);
+                }
+            }
             // the held node is released by another thread while the cascade runs
             for kk in if quick { vec![1i64, 2] } else { vec![1, 2, 3, 4] } {
                 b.add("rc/latency-vs-holder", if quick { few } else { all }, &[&[("n", 5), ("k", kk), ("age", 4)], &[("n", 5), ("k", kk), ("age", 0)]], if quick { 2 } else { 4 });
@@ -319,6 +327,15 @@ pub fn plan(prop: &str, tier: &str) -> Option<Plan> {
             let n = seq::cell_alphabet().len();
             for &e0 in (if quick { &[0i64, 15][..] } else { &[0i64, 5, 15][..] }).iter() {
                 b.add_cases("seq/cell", e(e0), seq::seq_cases(n, depth), 1500);
+            }
+            // shorter histories at every residue of the epoch modulo 16 (a link's stamp is the
+            // epoch of the write, an Rc made by the driver carries none: the two differ by the
+            // residue, and residues 4, 8, 12 share low bits with 0), and with 5 more epochs between
+            // the preparation of the expected values and the history
+            for e0 in 1..=16 {
+                for gap in [0, 5] {
+                    b.add_cases("seq/cell", e(e0).set("gap", gap), seq::seq_cases(n, if quick { 2 } else { 3 }), 1500);
+                }
             }
             // links made by conversion (From impls, AtomicRc::new) and emptied by take(): the
             // shares they own are part of the cell's contract
@@ -343,6 +360,13 @@ pub fn plan(prop: &str, tier: &str) -> Option<Plan> {
             let n = seq::wcell_alphabet().len();
             for &e0 in (if quick { &[0i64, 15][..] } else { &[0i64, 5, 15][..] }).iter() {
                 b.add_cases("seq/wcell", e(e0), seq::seq_cases(n, depth), 1500);
+            }
+            // (as for C08: every residue of the epoch modulo 16; an AtomicWeak does not stamp what
+            // is stored, the expected values made from snapshots carry the epoch of their link)
+            for e0 in 1..=16 {
+                for gap in [0, 5] {
+                    b.add_cases("seq/wcell", e(e0).set("gap", gap), seq::seq_cases(n, if quick { 2 } else { 3 }), 1500);
+                }
             }
             // weak links made by conversion (From impls) and rewritten through get_mut()
             b.add_cases("seq/conv", e(0).set("claim", 9).set("only", 0b0011_1100_0000), seq::conv_cases(), 40);
@@ -371,7 +395,12 @@ pub fn plan(prop: &str, tier: &str) -> Option<Plan> {
             bounds = json!({"N": "0..=5", "count": "0..=5", "weak N": "0..=4", "configurations": total});
         }
         "C13" | "C14" => {
-            let two: &[i64] = &[0, 2, 5, 6, 7, 10];
+            let two: &[i64] = &[0, 2, 5, 6, 7, 10, 11];
+            // the epoch counter wraps from 2^63-1 to 0: every distance is modular
+            let wrap: &[i64] = &[i64::MAX, i64::MAX - 1, i64::MAX - 2, i64::MAX - 3];
+            for &pr in (if quick { &[0i64, 6][..] } else { two }) {
+                b.add("ebr/sections", wrap, &[&[("prog", pr), ("bag", 64)]], if quick { 1 } else { 2 });
+            }
             let three: &[i64] = &[1, 3, 4, 8];
             let bags: &[i64] = &[64, 2];
             for &bag in bags {
@@ -425,6 +454,10 @@ pub fn plan(prop: &str, tier: &str) -> Option<Plan> {
                     }
                 }
             }
+            // the epoch counter wraps from 2^63-1 to 0 while the functions are pending
+            for mode in [0, 1] {
+                b.add("ebr/exit", &[i64::MAX, i64::MAX - 1, i64::MAX - 2, i64::MAX - 3, i64::MAX - 4], &[&[("mode", mode), ("j", 0), ("bag", 64), ("k", 3)]], if quick { 1 } else { 2 });
+            }
             b.add_cases("ebr/payload", e(0), crate::scen::ebr::payload_cases(), 200);
             b.goal("ebr/exit", "closure-ran");
             b.goal("ebr/exit", "all-closures-accounted");
@@ -445,7 +478,7 @@ pub fn plan(prop: &str, tier: &str) -> Option<Plan> {
             }
             // concurrent programs: nobody but the thread itself (reactivate) may move the epoch
             // its live guards were pinned in, whatever the other participants do
-            for pr in [0i64, 2, 5, 6] {
+            for pr in [0i64, 2, 5, 6, 11] {
                 b.add("ebr/sections", &[0], &[&[("prog", pr), ("bag", 64)]], if quick { 2 } else { 3 });
             }
             if !quick {
@@ -573,6 +606,14 @@ pub fn plan(prop: &str, tier: &str) -> Option<Plan> {
         }
         b.units.extend(dbg);
         for u in b.units.iter_mut() {
+            u.death_is_violation = true;
+        }
+    }
+    for u in b.units.iter_mut() {
+        // a guard that has outlived its handle is reactivated: a library that unregisters the
+        // participant there finalizes it a second time at the last unpin and kills the process
+        // in every schedule, including the first one explored
+        if u.scenario == "ebr/sections" && u.params.get("prog", 0) == 11 {
             u.death_is_violation = true;
         }
     }
